@@ -61,7 +61,7 @@ theorem step_refines_lone (env : Env) (h : Heap) (i : Inst) (s : LState) (op : O
   | m o => simp only [hstep, lstep, rm]; exact ⟨rel_set_mem hp r _, trivial⟩
   | g o => simp only [hstep, lstep, rg]; exact ⟨rel_set_glob hp r _, trivial⟩
   | t o => simp only [hstep, lstep, rt]; exact ⟨rel_set_tbl hp r _, trivial⟩
-  | calli ix => simp only [hstep, lstep, rt, rc]; exact ⟨r, trivial⟩
+  | calli ix => simp only [hstep, lstep, rt, rc, rg]; exact ⟨r, trivial⟩
   | minit k d sO n =>
     simp only [hstep, lstep, rdh, rm]
     cases hk : dh[k]? with
@@ -231,6 +231,17 @@ initial state — the hypotheses of `noninterference` are met by a concrete non-
 example : view (exHeap Wz.Gen.C11Sharing.shape).1 (exHeap Wz.Gen.C11Sharing.shape).2.1 = some (linit exMod) := by decide
 example : view (exHeap Wz.Gen.C11Sharing.shape).1 (exHeap Wz.Gen.C11Sharing.shape).2.2 = some (linit exMod) := by decide
 example : Private (exHeap Shape.asIs).2.1 := ⟨rfl, rfl, rfl, rfl, rfl, rfl, 0, rfl⟩
+
+/-- sample: the abstraction relation itself holds for both instances of the sample heap (the hypothesis `Rel h i s` of
+`noninterference` is met by a concrete heap with an aliased data segment and a per-instance element copy) -/
+example : Rel (exHeap Shape.asIs).1 (exHeap Shape.asIs).2.1 (linit exMod) :=
+  ⟨by decide +kernel, by decide +kernel, by decide +kernel, by decide +kernel, by decide +kernel,
+   ⟨[some (.shared 0 (.dseg 0))], by decide +kernel, .cons ⟨trivial, by decide +kernel⟩ .nil⟩,
+   ⟨[some (.ownE 0 0)], by decide +kernel, .cons ⟨rfl, by decide +kernel⟩ .nil⟩⟩
+example : Rel (exHeap Shape.asIs).1 (exHeap Shape.asIs).2.2 (linit exMod) :=
+  ⟨by decide +kernel, by decide +kernel, by decide +kernel, by decide +kernel, by decide +kernel,
+   ⟨[some (.shared 0 (.dseg 0))], by decide +kernel, .cons ⟨trivial, by decide +kernel⟩ .nil⟩,
+   ⟨[some (.ownE 1 0)], by decide +kernel, .cons ⟨rfl, by decide +kernel⟩ .nil⟩⟩
 
 /-- sample: instance 0 drops data segment 0 and writes its memory; instance 1 can still `memory.init` from the segment
 and reads 0 where instance 0 wrote -/
